@@ -32,6 +32,16 @@ theorem C04_ownLines_eq (w : World) (outdir fn : Str) (lines : List Str) :
   unfold ownLines
   cases w.read (Path.join outdir fn) <;> rfl
 
+/-- **A file that does not exist yet starts clean**: when nothing can be read at `outdir/fn`, the
+    pass writes exactly `fn`'s fresh expansion - whatever else the tree holds (a like-named file in
+    another folder, say `Alpha/Widget.h` when `Beta/Widget.h` is new). -/
+theorem C04_new_file_starts_clean (w : World) (outdir : Str) (cm : CodeModel)
+    (hnd : (ODict.keys cm).Nodup) (hnc : NoClash w outdir (ODict.keys cm))
+    (fn : Str) (lines : List Str) (hfn : ODict.get? cm fn = some lines)
+    (hnew : w.read (Path.join outdir fn) = none) :
+    ODict.get? (preservePass w outdir cm) fn = some lines := by
+  rw [C04_isolation w outdir cm hnd hnc fn lines hfn, C04_ownLines_eq, hnew]
+
 /-- other files do not matter: two worlds that agree on `outdir/fn` give `fn` the same lines -/
 theorem C04_other_files_irrelevant (w w' : World) (outdir : Str) (cm : CodeModel)
     (hnd : (ODict.keys cm).Nodup) (hnc : NoClash w outdir (ODict.keys cm))
